@@ -57,7 +57,8 @@ func runCaseRestart(in *In, dir string) *Obs {
 	updateFn := func(context.Context, []*nri.ContainerUpdate) ([]*nri.ContainerUpdate, error) { return nil, nil }
 
 	rec := &recorder{nObjs: len(pods1) + len(ctrs1), cutAfter: in.First.CutAfter}
-	pl := &plugin{mode: in.Handler, updates: in.Updates, pods: pods1, ctrs: ctrs1}
+	pl := &plugin{mode: in.Handler, updates: in.Updates, updPad: in.UpdPad, pods: pods1, ctrs: ctrs1}
+	obs.UpdSizes = updSizes(in, in.Updates)
 	var pimpl interface{} = syncPlugin{pl}
 	if in.Handler == "none" {
 		pimpl = noSyncPlugin{pl}
@@ -191,6 +192,7 @@ func runCaseRestart(in *In, dir string) *Obs {
 	for _, u := range res.ups {
 		obs.RtUpdates = append(obs.RtUpdates, idxOf(u.GetContainerId(), 'c'))
 	}
+	obs.UpdBad = updBad(res.ups, in.UpdPad)
 	_ = proto.Size
 	return obs
 }
